@@ -30,10 +30,20 @@ type Info struct {
 	Sites       []string
 }
 
+// ModuleDir is where the harness module's replace directive points: overlay
+// keys must be paths below it. Generate reads sources from repo, which is
+// normally the same directory; when it is another tree (a scratch worktree
+// with a deliberate change, VERIF_REPO), every source file of that tree is
+// mapped over the corresponding path below ModuleDir, so the build sees the
+// other tree without anything being written to either.
+const ModuleDir = "/repo"
+
 func Generate(repo, overlaySrc, outDir string) (*Info, error) {
 	info := &Info{}
 	replace := map[string]string{}
 	gen := filepath.Join(outDir, "gen")
+	foreign := filepath.Clean(repo) != ModuleDir
+	seen := map[string]bool{}
 
 	err := filepath.Walk(repo, func(path string, fi os.FileInfo, err error) error {
 		if err != nil {
@@ -47,7 +57,15 @@ func Generate(repo, overlaySrc, outDir string) (*Info, error) {
 			}
 			return nil
 		}
-		if !strings.HasSuffix(path, ".go") || strings.HasSuffix(path, "_test.go") || strings.HasSuffix(path, ".pb.go") {
+		if !strings.HasSuffix(path, ".go") || strings.HasSuffix(path, "_test.go") {
+			return nil
+		}
+		seen[rel] = true
+		target := filepath.Join(ModuleDir, rel)
+		if foreign {
+			replace[target] = path
+		}
+		if strings.HasSuffix(path, ".pb.go") {
 			return nil
 		}
 		src, err := os.ReadFile(path)
@@ -64,6 +82,7 @@ func Generate(repo, overlaySrc, outDir string) (*Info, error) {
 		if n == 0 {
 			return nil
 		}
+		path = target
 		dst := filepath.Join(gen, rel)
 		if err := os.MkdirAll(filepath.Dir(dst), 0o755); err != nil {
 			return err
@@ -79,6 +98,26 @@ func Generate(repo, overlaySrc, outDir string) (*Info, error) {
 	})
 	if err != nil {
 		return nil, err
+	}
+	if foreign {
+		// files that exist below ModuleDir but not in the other tree are deleted
+		_ = filepath.Walk(ModuleDir, func(path string, fi os.FileInfo, err error) error {
+			if err != nil {
+				return nil
+			}
+			rel, _ := filepath.Rel(ModuleDir, path)
+			if fi.IsDir() {
+				base := filepath.Base(path)
+				if rel != "." && (strings.HasPrefix(base, ".") || base == "testdata") {
+					return filepath.SkipDir
+				}
+				return nil
+			}
+			if strings.HasSuffix(path, ".go") && !strings.HasSuffix(path, "_test.go") && !seen[rel] {
+				replace[path] = ""
+			}
+			return nil
+		})
 	}
 
 	// injected files
@@ -102,7 +141,7 @@ func Generate(repo, overlaySrc, outDir string) (*Info, error) {
 		if err := os.WriteFile(dst, src, 0o644); err != nil {
 			return err
 		}
-		replace[filepath.Join(repo, rel)] = dst
+		replace[filepath.Join(ModuleDir, rel)] = dst
 		return nil
 	})
 	if err != nil {
